@@ -59,6 +59,7 @@ func (g *cgroup) String() string {
 type ccTask struct {
 	ts     *taskState
 	groups []cgroup
+	syncs  [][2]uint64 // call and return stamps of Sync() calls
 }
 
 func runConcCrash(r *Runner) {
@@ -188,6 +189,14 @@ func runConcCrash(r *Runner) {
 		}
 	}
 	r.add("cc_groups", int64(len(groups)))
+	if r.C.Prop == "C13" {
+		var syncs [][2]uint64
+		for _, ct := range tasks {
+			syncs = append(syncs, ct.syncs...)
+		}
+		r.ccSyncPolicy(groups, syncs, journal, startB)
+		return
+	}
 	ctx := &crashCtx{r: r, journal: journal, rng: vrt.NewRand(vrt.Mix(r.C.Seed, 0xcc4a)), followBatches: 1}
 	ctx.imgRoot = filepath.Join(ScratchBase, fmt.Sprintf("vsim-img-%d", os.Getpid()))
 	defer os.RemoveAll(ctx.imgRoot)
@@ -309,11 +318,15 @@ func (r *Runner) ccClient(ct *ccTask, ops []Op) {
 			}
 		case "sync":
 			var err error
+			call := vrt.Stamp()
 			p, _ := protect(func() { err = r.DB.Sync() })
+			r.FS.Mark(-1)
+			ret := vrt.Stamp()
 			if p != "" || err != nil {
 				ts.fail(prop, false, i, "base-run", "", "Sync: %s %s", clip(p, 200), errName(err))
 				return
 			}
+			ct.syncs = append(ct.syncs, [2]uint64{call, ret})
 			ts.inc("cc_syncs")
 		case "merge":
 			var err error
@@ -658,4 +671,121 @@ func (cc *ccCtx) describe(k int, cut map[int]int, power bool) string {
 		s += "; " + strings.Join(parts, ", ")
 	}
 	return s
+}
+
+// ccSyncPolicy judges the sync policy (C13) on the journal of a concurrent run: what must be flushed when a call
+// returns is decided per call from the data-file writes its own task issued inside it (standard I/O only: stores
+// through a mapping cannot be told apart by task).
+func (r *Runner) ccSyncPolicy(groups []*cgroup, syncs [][2]uint64, journal []vos.Entry, startB int) {
+	r.judging = true
+	// the rotation rule over the whole journal
+	r.scanJournal()
+	if r.violated() {
+		return
+	}
+	type ev struct {
+		at   uint64
+		g    *cgroup
+		sync *[2]uint64
+	}
+	var evs []ev
+	for _, g := range groups {
+		evs = append(evs, ev{at: g.ret, g: g})
+	}
+	for i := range syncs {
+		evs = append(evs, ev{at: syncs[i][1], sync: &syncs[i]})
+	}
+	sort.Slice(evs, func(a, b int) bool { return evs[a].at < evs[b].at })
+	unsynced := map[int][]int{} // inode -> journal indices of unflushed data entries
+	isUnsynced := func(idx int) bool {
+		for _, i := range unsynced[journal[idx].Ino] {
+			if i == idx {
+				return true
+			}
+		}
+		return false
+	}
+	next := 0
+	advance := func(until uint64) {
+		for ; next < len(journal) && journal[next].Ev < until; next++ {
+			e := &journal[next]
+			switch e.Kind {
+			case vos.KWrite, vos.KMWrite:
+				if isDBData(e.Path) {
+					unsynced[e.Ino] = append(unsynced[e.Ino], next)
+				}
+			case vos.KSync, vos.KMSync:
+				delete(unsynced, e.Ino)
+			}
+		}
+	}
+	var returned []*cgroup
+	for _, x := range evs {
+		advance(x.at)
+		if x.sync != nil {
+			// Sync() flushes everything written before it was called
+			inos := make([]int, 0, len(unsynced))
+			for ino := range unsynced {
+				inos = append(inos, ino)
+			}
+			sort.Ints(inos)
+			for _, ino := range inos {
+				for _, idx := range unsynced[ino] {
+					if journal[idx].Ev < x.sync[0] && idx >= startB {
+						r.fail("unsynced-after-sync", "concurrent", "Sync() returned (event %d) while journal entry %d (%s), written before it was called (event %d), is unflushed", x.sync[1], idx, journal[idx].String(), x.sync[0])
+						return
+					}
+				}
+			}
+			r.inc("all_synced_checks")
+			continue
+		}
+		g := x.g
+		returned = append(returned, g)
+		plain := g.kind == "put" || g.kind == "del"
+		if (plain && r.C.Cfg.Sync == 1) || g.syncBatch {
+			for _, idx := range g.data {
+				if isUnsynced(idx) {
+					if plain {
+						r.fail("always-unsynced", "concurrent", "SyncStrategy Always: %s returned while its own write (journal entry %d, %s) is unflushed", g.String(), idx, journal[idx].String())
+					} else {
+						r.fail("sync-batch-unsynced", "concurrent", "Commit of a Sync batch returned (%s) while its own write (journal entry %d, %s) is unflushed", g.String(), idx, journal[idx].String())
+					}
+					return
+				}
+			}
+			if plain {
+				r.inc("always_checks")
+			} else {
+				r.inc("sync_batch_checks")
+			}
+		}
+		if r.C.Cfg.Sync == 2 && r.C.Cfg.BPS > 0 {
+			total := 0
+			for _, h := range returned {
+				if h.kind != "put" && h.kind != "del" {
+					continue
+				}
+				for _, idx := range h.data {
+					if isUnsynced(idx) {
+						total += len(journal[idx].Data) - blockTailPadding(&journal[idx])
+					}
+				}
+			}
+			if total >= int(r.C.Cfg.BPS) {
+				r.fail("threshold-exceeded", "concurrent", "SyncStrategy Threshold(%d): when %s returned, %d bytes appended by acknowledged Put/Delete calls were unflushed", r.C.Cfg.BPS, g.String(), total)
+				return
+			}
+			r.inc("threshold_checks")
+		}
+	}
+	// Close() flushes everything
+	sc := vrt.NewSched(vrt.Policy{Mode: "seq"})
+	sc.Go("close", func() {
+		if r.closeDB() {
+			r.checkAllSynced("Close")
+		}
+	})
+	sc.Run()
+	r.afterSched(sc)
 }
